@@ -205,9 +205,9 @@ type vDConn struct {
 	dl                   time.Time // read deadline
 	wdl                  time.Time // write deadline
 	blockWrite           bool      // (with silent) the peer does not read either: writes block
-	ops                  int  // I/O and deadline operations so far
-	cancelAt             int  // cancel the context at operation #cancelAt (-1: never)
-	cancelLate           bool // ... at its end instead of its start
+	ops                  int       // I/O and deadline operations so far
+	cancelAt             int       // cancel the context at operation #cancelAt (-1: never)
+	cancelLate           bool      // ... at its end instead of its start
 	ctx                  *vCtx
 	silent               bool // the peer never answers
 	partial              bool // ... after sending the status line and part of a header line
